@@ -88,11 +88,11 @@ PROPS = {
         "partial": "edges for ReplaceWithdrawal / FinalizeWithdrawal / ProcessBridgeRequest are checked by the monitor and the state comparison, not yet by a Lean theorem",
     },
     "C06": {
-        "module": "GoatProofs.C06",
-        "theorems": ["Goat.C06.consecutive_number", "Goat.C06.btc_dequeue_spec", "Goat.C06.blockhashes_gapfree", "Goat.C06.locking_dequeue_spec"],
-        "streams": [{"name": "bitcoin", "quick": 2000, "thorough": 30000, "seeds": 16}, {"name": "locking", "quick": 1500, "thorough": 20000, "seeds": 8}],
+        "module": ["GoatProofs.C06", "GoatProofs.C08"], "facts": True,
+        "theorems": ["Goat.C06.consecutive_number", "Goat.C06.btc_dequeue_spec", "Goat.C06.blockhashes_gapfree", "Goat.C06.locking_dequeue_spec", "Goat.C08.verifyDequeue_exact"],
+        "streams": [{"name": "bitcoin", "quick": 2000, "thorough": 30000, "seeds": 16}, {"name": "locking", "quick": 1500, "thorough": 20000, "seeds": 8},
+                    {"name": "app-proposal", "quick": 700, "thorough": 4000, "seeds": 6}],
         "assumptions": ["RLP/ABI encoding of system transactions is goat-geth's (fields compared after decoding)"],
-        "partial": "VerifyDequeue / unfinalised-proposal clauses are covered by the A-layer stream (app), see DESIGN",
     },
     "C17": {
         "module": "GoatProofs.C17",
@@ -111,6 +111,79 @@ PROPS = {
         "streams": [{"name": "bitcoin", "quick": 2000, "thorough": 30000, "seeds": 16}, {"name": "addr", "quick": 2000, "thorough": 20000, "seeds": 8}],
         "assumptions": [],
     },
+    "C02": {
+        "module": "GoatProofs.C02", "facts": True,
+        "theorems": ["Goat.C02.verify_then_consume", "Goat.C02.newBlockHashes_consumes", "Goat.C02.newConsolidation_consumes", "Goat.C02.newPubkey_consumes",
+                     "Goat.C02.nonProposal_keeps_seq", "Goat.C02.acceptProposer_keeps_seq", "Goat.C02.endBlocker_keeps_seq", "Goat.C02.processRequest_keeps_seq",
+                     "Goat.C02.accept_needs_current_seq", "Goat.C02.stale_vote_rejected", "Goat.C02.other_epoch_rejected", "Goat.C02.reach_seq_mono",
+                     "Goat.C02.accepted_vote_never_again", "Goat.C02.code_writers_closed",
+                     "Goat.FactsThms.seq_writers_closed", "Goat.FactsThms.seq_callers_are_the_five_voted_handlers", "Goat.FactsThms.voted_handlers_verify_and_consume"],
+        "streams": [{"name": "relayer", "quick": 1500, "thorough": 12000, "seeds": 16}, {"name": "bitcoin", "quick": 1500, "thorough": 12000, "seeds": 8},
+                    {"name": "app", "quick": 1200, "thorough": 6000, "seeds": 8}],
+        "assumptions": ["BLS aggregate verification is an oracle parameter (see C01)",
+                        "the closure of the set of code paths that write the sequence / randao is a regenerated source fact (factgen: SSA call graph of /repo), discharged by `decide` on every run"],
+        "partial": "processWithdrawal / replaceWithdrawal consume the vote through the same helper (covered by FactsThms.voted_handlers_verify_and_consume and the streams) but have no separate *_consumes theorem",
+    },
+    "C07": {
+        "module": ["GoatProofs.C07", "GoatProofs.FactsThms"], "facts": True,
+        "theorems": ["Goat.FactsThms.map_ranges_allowlisted", "Goat.FactsThms.nondeterminism_confined",
+                     "Goat.C07.endBlocker_eq", "Goat.C07.rmState_comm", "Goat.C07.removal_loop_order_insensitive", "Goat.C07.leftovers_nodup",
+                     "Goat.C07.endBlocker_removal_order_insensitive", "Goat.C07.endBlocker_any_two_orders", "Goat.C07.endBlocker_order_explicit",
+                     "Goat.C07.aggregateLocks_eq", "Goat.C07.aggregateLocks_never_err", "Goat.C07.keys_aggregate_first_occurrence", "Goat.C07.keys_aggregate_nodup",
+                     "Goat.C07.aggregate_amount", "Goat.C07.aggregate_amount_perm", "Goat.C07.aggregateLocks_deterministic",
+                     "Goat.C07.comet_apply_order_insensitive", "Goat.C07.comet_apply_perm", "Goat.C07.agree_then_comet_agree"],
+        "streams": [{"name": "app-det", "quick": 700, "thorough": 5000, "seeds": 12}],
+        "assumptions": ["the committed multistore (IAVL) and cachekv flush order are cosmos-sdk's (dependency, not modelled); the twin replica runs the same binary in the same process with independently constructed applications and databases",
+                        "goroutine interleavings are exercised only as far as the Go scheduler varies them over the repeated executions (each block is executed by two replicas, re-executed, and once more after a restart from disk)",
+                        "keys of the recorded validator set are pairwise distinct (they are keys of a KV map)"],
+        "partial": "runtime scheduling cannot be exhibited by the model; it is sampled by repeated execution",
+    },
+    "C16": {
+        "module": "GoatProofs.C16",
+        "theorems": ["Goat.C16.C16", "Goat.C16.run_preserves", "Goat.C16.endBlocker_never_fails", "Goat.C16.run_endBlocker_never_fails", "Goat.C16.endBlocker_preserves",
+                     "Goat.C16.processRequest_preserves", "Goat.C16.newVoter_preserves", "Goat.C16.acceptProposer_preserves", "Goat.C16.verifyProposal_preserves",
+                     "Goat.C16.consumeVote_preserves", "Goat.C16.electionDue_iff", "Goat.C16.endBlocker_timing", "Goat.C16.endBlocker_epoch_iff",
+                     "Goat.C16.endBlocker_elected", "Goat.C16.endBlocker_members", "Goat.C16.endBlocker_new_voter_was_onBoarding", "Goat.C16.endBlocker_proposer_origin",
+                     "Goat.C16.processRequest_keeps_active", "Goat.C16.processRequest_keeps_group", "Goat.C16.newVoter_joined", "Goat.C16.newVoter_by_proof"],
+        "streams": [{"name": "relayer", "quick": 2000, "thorough": 15000, "seeds": 16}, {"name": "app", "quick": 900, "thorough": 5000, "seeds": 8}],
+        "assumptions": ["the initial (genesis) group satisfies the invariant GroupInv (relayer InitGenesis refuses duplicated voters, a proposer outside the records or among the voters; checked on every state dump by the monitor)",
+                        "ECDSA / BLS proof-of-possession verification and the bech32 address encoding are parameters of the model (oracles stated by the harness from the real libraries)"],
+    },
+    "C08": {
+        "module": "GoatProofs.C08", "facts": True,
+        "theorems": ["Goat.C08.verifyDequeue_exact", "Goat.C08.processProposal_exact", "Goat.C08.accepted_wellformed", "Goat.C08.honest_accepted",
+                     "Goat.C08.due_cap", "Goat.C08.no_conflicting_access"],
+        "streams": [{"name": "app-proposal", "quick": 900, "thorough": 6000, "seeds": 12}],
+        "assumptions": ["the execution client's verdict on the payload is a scripted answer of the fake engine", "transaction decoding (protobuf, RLP of system transactions) is the real code's; the model sees canonical texts"],
+    },
+    "C09": {
+        "module": "GoatProofs.C09",
+        "theorems": ["Goat.C09.head_only_by_child", "Goat.C09.nil_payload_rejected", "Goat.C09.finalized_exact", "Goat.C09.uncommitted_block_restores_prestate",
+                     "Goat.C09.engine_fault_not_committed", "Goat.C09.committed_needs_engine_ok", "Goat.C09.head_becomes_payload",
+                     "Goat.C09.head_unchanged_on_failure", "Goat.C09.only_ethblock_moves_head"],
+        "streams": [{"name": "app-engine", "quick": 900, "thorough": 6000, "seeds": 12}],
+        "assumptions": ["the engine is the scripted fake execution layer of the harness (IPC JSON-RPC server); timeouts are exercised as transport errors",
+                        "'nothing persists' is CometBFT's contract that a failed FinalizeBlock is not followed by Commit; the harness emulates it and restarts the application from disk"],
+    },
+    "C10": {
+        "module": "GoatProofs.C10", "facts": True,
+        "theorems": ["Goat.C10.relayerTxOnly_ok", "Goat.C10.guardStep_ok", "Goat.C10.guard_exact", "Goat.C10.ethblock_never_in_mempool",
+                     "Goat.C10.foreign_never_passes", "Goat.C10.registry_closed", "Goat.FactsThms.registry_known",
+                     "Goat.FactsThms.relayer_namespace_is_the_known_ten", "Goat.FactsThms.guard_is_second_decorator"],
+        "streams": [{"name": "app-guard", "quick": 900, "thorough": 6000, "seeds": 12}],
+        "assumptions": ["signature and account-sequence verification are cosmos-sdk's ante decorators (real code in the stream; facts stated to the model)",
+                        "the list of registered sdk.Msg implementations is read from the real interface registry of app.New on every run (msgreg) and the ante chain order from the source (factgen)"],
+    },
+    "C19": {
+        "module": "GoatProofs.C19",
+        "theorems": ["Goat.C19.commitTx_failed", "Goat.C19.failed_msg_changes_nothing", "Goat.C19.failed_tx_changes_nothing",
+                     "Goat.C19.ante_rejects_before_handler", "Goat.C19.readonly_ops"],
+        "streams": [{"name": "app-malformed", "quick": 900, "thorough": 6000, "seeds": 12}, {"name": "app", "quick": 700, "thorough": 4000, "seeds": 6},
+                    {"name": "relayer", "quick": 1200, "thorough": 8000, "seeds": 6}],
+        "assumptions": ["'cannot crash' is a statement about the Go runtime: decided by running the real application on malformed inputs (a crash of the harness process is the failing input); the model represents recovered panics as outcomes",
+                        "per-transaction rollback is cosmos-sdk baseapp's (real code in the app streams)"],
+        "partial": "crash freedom is sampled (byte-level mutations of every message type and of proposals), not proved; the rollback half is proved on the model",
+    },
     "C04": {
         "module": "GoatProofs.C04",
         "theorems": [
@@ -128,3 +201,41 @@ PROPS = {
         ],
     },
 }
+
+
+def run_factgen(sh, goenv):
+    """regenerate lean/GoatModel/Generated/Facts.lean from /repo's current source (go/packages + the
+    real interface registry)"""
+    verif = os.path.dirname(os.path.dirname(os.path.abspath(__file__)))
+    repo = os.environ.get("VERIF_REPO", "/repo")
+    build = os.path.join(verif, ".build")
+    os.makedirs(build, exist_ok=True)
+    out = os.path.join(verif, "lean", "GoatModel", "Generated", "Facts.lean")
+    os.makedirs(os.path.dirname(out), exist_ok=True)
+    rc, so, se = sh(["go", "build", "-o", os.path.join(build, "msgreg"), "./cmd/msgreg"], cwd=os.path.join(verif, "harness"), env=goenv, timeout=1500)
+    if rc != 0:
+        return False, "msgreg build: " + (so + se)[-1500:]
+    rc, so, se = sh([os.path.join(build, "msgreg")], env=goenv, timeout=300)
+    if rc != 0:
+        return False, "msgreg run: " + (so + se)[-1500:]
+    open(os.path.join(build, "msgreg.txt"), "w").write(so)
+    rc, so, se = sh(["go", "build", "-o", os.path.join(build, "factgen"), "."], cwd=os.path.join(verif, "factgen"), env=goenv, timeout=1500)
+    if rc != 0:
+        return False, "factgen build: " + (so + se)[-1500:]
+    tmp = out + ".new"
+    rc, so, se = sh([os.path.join(build, "factgen"), "-repo", repo, "-out", tmp, "-json", os.path.join(build, "facts.json"),
+                     "-msgs", os.path.join(build, "msgreg.txt")], env=goenv, timeout=900)
+    if rc != 0:
+        return False, "factgen run: " + (so + se)[-1500:]
+    # message names also as character-code lists (kernel-reducible prefix tests)
+    names = [l.split()[1] for l in open(os.path.join(build, "msgreg.txt")) if l.startswith("msg ")]
+    txt = open(tmp).read()
+    extra = "\n/-- `registeredMsgs` as lists of character codes -/\ndef registeredMsgsC : List (List Nat) := [\n" + ",\n".join(
+        "  [" + ", ".join(str(ord(c)) for c in n) + "]" for n in names) + "\n]\n\nend Goat.Facts\n"
+    txt = txt.replace("\nend Goat.Facts\n", extra, 1) if "\nend Goat.Facts\n" in txt else txt
+    open(tmp, "w").write(txt)
+    if not os.path.exists(out) or open(out).read() != open(tmp).read():
+        os.replace(tmp, out)
+    else:
+        os.remove(tmp)
+    return True, ""
